@@ -121,6 +121,40 @@ pub fn number_to_string(n: f64) -> String {
     out
 }
 
+/// Value of a non-empty string of digits in the given radix (2..=36), as the nearest double.
+/// Exact while the value fits 128 bits; further digits only scale it and make it inexact
+/// (sticky bit), so radices 2, 4, 8, 16 and 32 are correctly rounded whatever the length.
+/// `None` if the string is empty or holds anything but digits of that radix.
+pub(crate) fn radix_digits_to_number(digits: &str, radix: u32) -> Option<f64> {
+    if digits.is_empty() {
+        return None;
+    }
+    let mut acc: u128 = 0;
+    let mut extra_digits: u32 = 0;
+    let mut sticky = false;
+    for c in digits.chars() {
+        let d = c.to_digit(radix)? as u128;
+        if extra_digits == 0
+            && let Some(v) = acc
+                .checked_mul(radix as u128)
+                .and_then(|v| v.checked_add(d))
+        {
+            acc = v;
+            continue;
+        }
+        extra_digits = extra_digits.saturating_add(1);
+        sticky |= d != 0;
+    }
+    let mut value = (acc | sticky as u128) as f64;
+    for _ in 0..extra_digits {
+        value *= radix as f64;
+        if value.is_infinite() {
+            break;
+        }
+    }
+    Some(value)
+}
+
 /// ECMAScript ToUint32: truncate toward zero, then wrap modulo 2^32.
 /// NaN and the infinities map to 0.
 pub fn to_uint32(n: f64) -> u32 {
@@ -183,36 +217,18 @@ pub fn string_to_number(s: &str) -> f64 {
             match bytes.get(1) {
                 Some(b'x' | b'X') => {
                     // Hexadecimal: 0x...
-                    let hex_part = trimmed.get(2..).unwrap_or("");
-                    if hex_part.is_empty() {
-                        return f64::NAN;
-                    }
-                    return match u64::from_str_radix(hex_part, 16) {
-                        Ok(n) => n as f64,
-                        Err(_) => f64::NAN,
-                    };
+                    return radix_digits_to_number(trimmed.get(2..).unwrap_or(""), 16)
+                        .unwrap_or(f64::NAN);
                 }
                 Some(b'o' | b'O') => {
                     // Octal: 0o...
-                    let oct_part = trimmed.get(2..).unwrap_or("");
-                    if oct_part.is_empty() {
-                        return f64::NAN;
-                    }
-                    return match u64::from_str_radix(oct_part, 8) {
-                        Ok(n) => n as f64,
-                        Err(_) => f64::NAN,
-                    };
+                    return radix_digits_to_number(trimmed.get(2..).unwrap_or(""), 8)
+                        .unwrap_or(f64::NAN);
                 }
                 Some(b'b' | b'B') => {
                     // Binary: 0b...
-                    let bin_part = trimmed.get(2..).unwrap_or("");
-                    if bin_part.is_empty() {
-                        return f64::NAN;
-                    }
-                    return match u64::from_str_radix(bin_part, 2) {
-                        Ok(n) => n as f64,
-                        Err(_) => f64::NAN,
-                    };
+                    return radix_digits_to_number(trimmed.get(2..).unwrap_or(""), 2)
+                        .unwrap_or(f64::NAN);
                 }
                 _ => {}
             }
